@@ -146,9 +146,16 @@ TrCRT ==
      /\ ObsOK(Len(c.c.entries), c.c.theta, c.mx, c.c.empty, c.lgNom, Ev.o)
   /\ UNCHANGED obj
 
+\* C13: a compressed image with a 3-byte entry count (compared with its entry list by the harness)
+TrCLoadBig ==
+  /\ IsEv("CLoadBig")
+  /\ Ev.nbytes = (IF Ev.n < 256 THEN 1 ELSE IF Ev.n < 65536 THEN 2 ELSE IF Ev.n < 16777216 THEN 3 ELSE 4)
+  /\ (On("C13") \/ On("C11")) => (Ev.ok /\ Ev.same /\ Ev.again)
+  /\ UNCHANGED <<obj, cmp>>
+
 TrPanic == IsEv("Panic") /\ FALSE /\ UNCHANGED <<obj, cmp>>
 
-TNext == TrRun \/ TrCLoad \/ TrNew \/ TrOffer \/ TrTrim \/ TrReset \/ TrChk \/ TrCompact \/ TrCRT \/ TrPanic
+TNext == TrCLoadBig \/ TrRun \/ TrCLoad \/ TrNew \/ TrOffer \/ TrTrim \/ TrReset \/ TrChk \/ TrCompact \/ TrCRT \/ TrPanic
 TSpec == TInit /\ [][TNext]_tvars
 
 Accepted ==
